@@ -217,11 +217,14 @@ def tlc_model(module, cfg, dom, workers=None, timeout=3000, env=None, simulate=N
                 transitions=int(st.group(1)) if st else 0, out=out)
 
 
-def apalache(module, cinit, inv, length=0, timeout=600, cwd=None):
+def apalache(module, cinit, inv, length=0, timeout=600, cwd=None, init=None, next_=None):
     """Apalache bounded/inductive check of a design lemma.  Returns dict(result, note)."""
     cwd = cwd or os.path.join(TLA, "apa")
-    out = os.path.join(WORK, "apalache_%d" % os.getpid())
-    cmd = ["apalache-mc", "check", "--cinit=" + cinit, "--inv=" + inv, "--length=%d" % length, "--out-dir=" + out, module]
+    out = os.path.join(WORK, "apalache_%d_%s_%s" % (os.getpid(), cinit, inv))
+    cmd = ["apalache-mc", "check", "--cinit=" + cinit, "--inv=" + inv, "--length=%d" % length, "--out-dir=" + out]
+    if init:
+        cmd += ["--init=" + init, "--next=" + next_]
+    cmd.append(module)
     t0 = time.time()
     try:
         p = run(cmd, cwd=cwd, timeout=timeout, check=False)
